@@ -542,6 +542,9 @@ var bindOtherDests = []func() any{
 	func() any { var u uint8; return &u },
 	func() any { return &[4]int{} },
 	func() any { var f float32; return &f },
+	func() any { var p *tagged; return &p },                     // pointer to a nil pointer: encoding/json allocates
+	func() any { p := &tagged{ID: 7, Name: "keep"}; return &p }, // pointer to a pointer that points somewhere already
+	func() any { var p *[]int; return &p },
 	// pre-filled destinations: json.Unmarshal decodes INTO the destination, fields absent from the JSON survive
 	func() any { return &tagged{ID: 77, Name: "keep"} },
 	func() any { return &map[string]any{"keep": true} },
@@ -771,6 +774,23 @@ type cfgProbe struct {
 	barN     int32
 	arrived  int32
 	once     sync.Once
+	prepKind string // what the post function was handed as the prep value: "string", "result", ...
+}
+
+func (p *cfgProbe) sawPrep(v any) {
+	k := "other"
+	switch x := v.(type) {
+	case nil:
+		k = "nil"
+	case string:
+		k = "string"
+	case flyt.Result:
+		k = "result"
+		_ = x
+	}
+	p.mu.Lock()
+	p.prepKind = k
+	p.mu.Unlock()
 }
 
 func (p *cfgProbe) mark(phase string, id int) {
@@ -778,6 +798,8 @@ func (p *cfgProbe) mark(phase string, id int) {
 	p.called[phase] = id
 	p.mu.Unlock()
 }
+
+type namedFb func(any, error) (any, error)
 
 func runConfigScenario(kind string, steps []cfgStep) []Event {
 	return runConfigScenarioOpt(kind, steps, false)
@@ -878,6 +900,7 @@ func runConfigScenarioOpt(kind string, steps []cfgStep, second bool) []Event {
 	postFn := func(id int) func(context.Context, *flyt.SharedStore, flyt.Result, flyt.Result) (flyt.Action, error) {
 		return func(ctx context.Context, s *flyt.SharedStore, a, b flyt.Result) (flyt.Action, error) {
 			p.mark("post", id)
+			p.sawPrep(a.Value())
 			return flyt.DefaultAction, nil
 		}
 	}
@@ -886,6 +909,14 @@ func runConfigScenarioOpt(kind string, steps []cfgStep, second bool) []Event {
 			p.mark("prep", id)
 			applyInPrep()
 			return "prep", nil
+		}
+	}
+	// an any-based prep function whose value happens to be a flyt.Result (it is a value like any other)
+	prepFnAR := func(id int) func(context.Context, *flyt.SharedStore) (any, error) {
+		return func(ctx context.Context, s *flyt.SharedStore) (any, error) {
+			p.mark("prep", id)
+			applyInPrep()
+			return flyt.NewResult("prep"), nil
 		}
 	}
 	execFnA := func(id int) func(context.Context, any) (any, error) {
@@ -898,6 +929,7 @@ func runConfigScenarioOpt(kind string, steps []cfgStep, second bool) []Event {
 	postFnA := func(id int) func(context.Context, *flyt.SharedStore, any, any) (flyt.Action, error) {
 		return func(ctx context.Context, s *flyt.SharedStore, a, b any) (flyt.Action, error) {
 			p.mark("post", id)
+			p.sawPrep(a)
 			return flyt.DefaultAction, nil
 		}
 	}
@@ -937,7 +969,7 @@ func runConfigScenarioOpt(kind string, steps []cfgStep, second bool) []Event {
 		}
 	}
 	probe := Event{"ev": "probe", "retries": 0, "wait": 0, "conc": 0, "mode": 0, "prepfn": 0, "execfn": 0, "postfn": 0, "fbfn": 0,
-		"attempts": 0, "hwm": 0, "stopped": false, "panicked": false}
+		"attempts": 0, "hwm": 0, "stopped": false, "panicked": false, "prepkind": ""}
 	func() {
 		defer func() {
 			if r := recover(); r != nil {
@@ -953,7 +985,9 @@ func runConfigScenarioOpt(kind string, steps []cfgStep, second bool) []Event {
 			}
 			switch s.Param {
 			case "prep":
-				if s.Sty == "a" {
+				if s.Sty == "ar" {
+					opts = append(opts, flyt.WithPrepFuncAny(prepFnAR(s.Val)))
+				} else if s.Sty == "a" {
 					opts = append(opts, flyt.WithPrepFuncAny(prepFnA(s.Val)))
 				} else {
 					opts = append(opts, flyt.WithPrepFunc(prepFn(s.Val)))
@@ -971,7 +1005,11 @@ func runConfigScenarioOpt(kind string, steps []cfgStep, second bool) []Event {
 					opts = append(opts, flyt.WithPostFunc(postFn(s.Val)))
 				}
 			case "fb":
-				opts = append(opts, flyt.WithExecFallbackFunc(fbFn(s.Val)))
+				if s.Sty == "n" {
+					opts = append(opts, flyt.WithExecFallbackFunc(namedFb(fbFn(s.Val)))) // a fallback kept in a named function type
+				} else {
+					opts = append(opts, flyt.WithExecFallbackFunc(fbFn(s.Val)))
+				}
 			default:
 				if s.Sty == "f" {
 					opts = append(opts, (func(*flyt.BaseNode))(baseOpt(s))) // the unnamed function type
@@ -1001,7 +1039,9 @@ func runConfigScenarioOpt(kind string, steps []cfgStep, second bool) []Event {
 					case "mode":
 						b = b.WithBatchErrorHandling(s.Val == 0)
 					case "prep":
-						if s.Sty == "a" {
+						if s.Sty == "ar" {
+							b = b.WithPrepFuncAny(prepFnAR(s.Val))
+						} else if s.Sty == "a" {
 							b = b.WithPrepFuncAny(prepFnA(s.Val))
 						} else {
 							b = b.WithPrepFunc(prepFn(s.Val))
@@ -1019,7 +1059,11 @@ func runConfigScenarioOpt(kind string, steps []cfgStep, second bool) []Event {
 							b = b.WithPostFunc(postFn(s.Val))
 						}
 					case "fb":
-						b = b.WithExecFallbackFunc(fbFn(s.Val))
+						if s.Sty == "n" {
+							b = b.WithExecFallbackFunc(namedFb(fbFn(s.Val)))
+						} else {
+							b = b.WithExecFallbackFunc(fbFn(s.Val))
+						}
 					}
 				}
 			}
@@ -1086,6 +1130,9 @@ func runConfigScenarioOpt(kind string, steps []cfgStep, second bool) []Event {
 		probe["prepfn"], probe["execfn"], probe["postfn"] = p.called["prep"], p.called["exec"], p.called["post"]
 		p.mu.Unlock()
 		probe["hwm"] = int(atomic.LoadInt32(&p.hwm))
+		p.mu.Lock()
+		probe["prepkind"] = p.prepKind
+		p.mu.Unlock()
 		nExec := 0
 		for m := atomic.LoadInt32(&p.executed); m != 0; m &= m - 1 {
 			nExec++
@@ -1354,6 +1401,12 @@ func init() {
 				}
 				if base && form == "opt" && r.Intn(2) == 0 {
 					sty = "f"
+				}
+				if prm == "fb" && r.Intn(2) == 0 {
+					sty = "n"
+				}
+				if prm == "prep" && kind == "node" && r.Intn(3) == 0 {
+					sty = "ar"
 				}
 				s := cfgStep{prm, form, val, sty}
 				if form == "opt" {
